@@ -6,7 +6,7 @@ For every seeded/<name>/ (patch.diff + meta.json with check_result.caught == tru
 Never touches /repo. Prints one line per seed; exit 0 iff every expected detection happened."""
 import json, os, shutil, subprocess, sys, tempfile
 VERIF = os.path.dirname(os.path.dirname(os.path.abspath(__file__)))
-props = [a.upper() for a in sys.argv[1:] if not a.startswith('-')]
+props = [a.upper() for a in sys.argv[1:] if not a.startswith('-')]   # --only=<substring of the seed/refactor name> narrows further
 UPDATE = '--update' in sys.argv   # write the observed result back into each seed's meta.json (after strengthening rules)
 seeds = []
 for name in sorted(os.listdir(os.path.join(VERIF, 'seeded'))):
@@ -32,6 +32,9 @@ if not props or '--refactors' in sys.argv:
             m = json.load(open(mp))
             m['kind'] = 'refactor'
             seeds.append((name, d, m))
+ONLY = [a.split('=', 1)[1] for a in sys.argv[1:] if a.startswith('--only=')]
+if ONLY:
+    seeds = [x for x in seeds if any(o in x[0] for o in ONLY)]
 base = tempfile.mkdtemp(prefix='pvx-selftest-', dir=os.environ.get('PVX_SCRATCH', '/var/tmp'))
 ok = True
 results = []
@@ -83,6 +86,7 @@ def worker(i, q):
                 if UPDATE:
                     mm = json.load(open(os.path.join(d, 'meta.json')))
                     mm.setdefault('check_result', {}).update({'applies': True, 'silent': silent, 'alarms': alarms})
+                    mm['check_result'].setdefault('at_import', {'applies': True, 'silent': silent, 'alarms': alarms})
                     json.dump(mm, open(os.path.join(d, 'meta.json'), 'w'), indent=1)
                 results.append((name, 'silent' if silent else 'FALSE-ALARM', True))
                 print('%-28s %-11s expected=silent %s' % (name, 'silent' if silent else 'FALSE-ALARM', str(alarms)[:160] if alarms else ''), flush=True)
